@@ -308,6 +308,10 @@ func main() {
 		fatal2("%v", err)
 	}
 	replayDir := filepath.Join(root, "replays")
+	if altTag != "" {
+		// a run against a scratch tree keeps its replay files apart (several may run at once)
+		replayDir = filepath.Join(root, "replays", "alt-"+altTag)
+	}
 	os.MkdirAll(replayDir, 0o755)
 
 	if replay != "" {
